@@ -8,7 +8,8 @@ def run(tier, seed):
         prepare=_loss.prepare(0), sig=_loss.sig,
         rule="TLC enumerates EVERY subset of batched keys of a 3-key parameter set x parameter shapes () / (1,) x ODE / stationary / "
              "non-stationary losses x network depending on the parameters through its output transform or not x heterogeneity maps "
-             "(none, a declared key with the others missing, a declared key with the others None) x observed parameter x batch size; "
+             "(none, a declared key with the others missing, a declared key with the others None) x observed parameter x batch size x a normalisation term (`normp`) or a Dirichlet / Neumann condition (`bndp`) "
+             "next to a parameter batch the network depends on; "
              "parameter tables have distinct (tagged) rows; every term must equal LossSemantics with ParamsRow / HetParams; "
              "distinct = distinct structure",
         assumptions=["polynomial networks, residuals and heterogeneity maps (exact under x64)",
